@@ -375,7 +375,7 @@ class Server(Acceptor):
         try:
             self.ixes[ca].serviceReceives()
         except OSError as ex:
-            logger.error("Closing incoming socket on %s.\n%s\n", ix.cs.getpeername(), ex)
+            logger.error("Closing incoming socket on %s.\n%s\n", self.ixes[ca].cs.getpeername(), ex)
             self.removeIx(ca=ca)  # also closes ix
 
 
